@@ -81,6 +81,19 @@ def _effect_nodes(ctx, f):
     return nodes
 
 
+def _write_effect_nodes(ctx, f):
+    """Calls (and drops) that can write to the underlying file."""
+    v = view(ctx, f)
+    nodes = []
+    for bb, c in v.calls.items():
+        if "io_write" in ctx.cg.call_effects(c):
+            nodes.append((("t", bb), "call %s (line %d), which writes to the file" % (c.name, c.line)))
+    for c in ctx.cg.calls[f.path]:
+        if c.kind == "drop" and "io_write" in ctx.cg.call_effects(c):
+            nodes.append((("t", c.bb), "drop of a Stream (writes back) (line %d)" % c.line))
+    return nodes
+
+
 def noeffect(ctx):
     res = RuleResult("R-NOEFFECT", "in every API method no state/file mutation (nor a store to a handle field) precedes a refusal point on any path")
     n_fn = 0
@@ -165,11 +178,44 @@ def errkind(pid):
     return run
 
 
+def _excluded_by_caller(ctx, f, c, cf, cc):
+    """The refusal at c (in f) tests a parameter of f; does the caller cf, at its call cc, already know the
+    complementary relation for the argument it passes (it made the same check itself, earlier)?"""
+    from prov import Prov, guards as _guards, _split_top
+    comp = {"Gt": "Le", "Ge": "Lt", "Lt": "Ge", "Le": "Gt", "Eq": "Ne", "Ne": "Eq"}
+
+    def toks(x):
+        return set(re.findall(r"const:[\w:]+", x)) | {t.split("::")[-1] for t in re.findall(r"[A-Za-z_][\w:]*(?=\()", x)}
+    pnames = {nm: l for l, nm in f.debug_names().items() if 1 <= l <= f.arg_count}
+    prc = Prov(cf)
+    catoms = _guards(ctx, cf).atoms_at(("t", cc.bb))
+    for a in _guards(ctx, f).atoms_at(("t", c.bb)):
+        m = re.match(r"^\((Gt|Ge|Lt|Le|Eq|Ne)\((.*)\)\)$", a)
+        if not m:
+            continue
+        ops = _split_top(m.group(2))
+        mp = re.match(r"^param:(\w+)$", ops[0]) if len(ops) == 2 else None
+        if not mp or mp.group(1) not in pnames:
+            continue
+        idx = pnames[mp.group(1)] - 1
+        if idx >= len(cc.term["args"]):
+            continue
+        actual = prc.operand(cc.term["args"][idx])
+        for ca in catoms:
+            m2 = re.match(r"^\((Gt|Ge|Lt|Le|Eq|Ne)\((.*)\)\)$", ca)
+            if not m2 or m2.group(1) != comp[m.group(1)]:
+                continue
+            o2 = _split_top(m2.group(2))
+            if len(o2) == 2 and o2[0] == actual and toks(ops[1]) <= toks(o2[1]):
+                return True
+    return False
+
+
 def deeprefusal(ctx):
     """R-DEEPREFUSAL (C10): NotFound / AlreadyExists are namespace refusals.  When one is raised below the API
     layer (inside internal::*), every function on the way down must not have changed anything before calling
     further down - otherwise the API call is refused after it has already written."""
-    res = RuleResult("R-DEEPREFUSAL", "a NotFound / AlreadyExists refusal constructed inside the internal layer is not preceded by an effect in any function on the call chain that reaches it")
+    res = RuleResult("R-DEEPREFUSAL", "a NotFound / AlreadyExists refusal - or an InvalidInput refusal of a caller-supplied argument - constructed inside the internal layer is not preceded by an effect in any function on the call chain that reaches it")
     callers = {}
     for f in ctx.fx.fns.values():
         for c in ctx.cg.calls[f.path]:
@@ -181,12 +227,28 @@ def deeprefusal(ctx):
         if not f.path.startswith("internal::"):
             continue
         for (c, kind) in refusals(ctx, f):
-            if kind not in ("NotFound", "AlreadyExists"):
+            if kind == "InvalidInput":
+                # only a refusal of the caller's ARGUMENT (a comparison whose subject is computed from a non-self
+                # parameter alone: an over-long length, an invalid name); a refusal that reads file state (a cell
+                # found free twice) is a damaged-file report, whatever kind it uses
+                from prov import guards as _guards
+                from prov import _split_top
+                arg = False
+                for a_ in _guards(ctx, f).atoms_at(("t", c.bb)):
+                    m_ = re.match(r"^!?\((Gt|Ge|Lt|Le|Eq|Ne)\((.*)\)\)$", a_)
+                    if m_:
+                        ops_ = _split_top(m_.group(2))
+                        if len(ops_) == 2 and re.search(r"param:(?!self\b)\w+", ops_[0]) and "param:self" not in ops_[0] and "var:" not in ops_[0]:
+                            arg = True
+                if not arg:
+                    continue
+            elif kind not in ("NotFound", "AlreadyExists"):
                 continue
             n += 1
             # inside f itself
             problems = []
-            effs = _effect_nodes(ctx, f)
+            _eff = _write_effect_nodes if kind == "InvalidInput" else _effect_nodes
+            effs = _eff(ctx, f)
             pg = view(ctx, f).pg
             for (en, desc) in effs:
                 if ("t", c.bb) in pg.reach_after(en):
@@ -198,8 +260,18 @@ def deeprefusal(ctx):
             while work and not problems:
                 cur = work.pop()
                 for (cf, cc) in callers.get(cur, []):
+                    try:
+                        dk_ = view(ctx, cf).disp(cc.bb)["kind"]
+                    except Exception:
+                        dk_ = "unknown"
+                    if kind == "InvalidInput" and dk_ in ("discarded", "dropped", "unwrap"):
+                        continue        # the error is not handed up from here (an assertion probing is_ok()): not a refusal of the API call
+                    if kind == "InvalidInput" and not cur.startswith("internal::") :
+                        continue        # above the API function that entered the internal layer: a compound operation
+                    if kind == "InvalidInput" and cur == f.path and _excluded_by_caller(ctx, f, c, cf, cc):
+                        continue        # this caller has already refused the same argument: the refusal cannot fire from here
                     cpg = view(ctx, cf).pg
-                    for (en, desc) in _effect_nodes(ctx, cf):
+                    for (en, desc) in _eff(ctx, cf):
                         if en != ("t", cc.bb) and ("t", cc.bb) in cpg.reach_after(en):
                             problems.append("%s in %s, before it calls %s (line %d)" % (desc, cf.path.split("::")[-1], cur.split("::")[-1], cc.line))
                             break
